@@ -47,11 +47,15 @@ theorem translateSpecial_AN (o row) : AN (translateSpecial o row) := by
 
 theorem translateIndexed_AN (o row) : AN (translateIndexed o row) := by
   unfold translateIndexed
-  repeat' first | exact translateOffset_AN _ _ _ _ _ | an_step
+  rcases o with ⟨kind, text, value, left, right⟩
+  cases left <;> cases right <;> dsimp only <;>
+    repeat' first | exact translateOffset_AN _ _ _ _ _ | an_step
 
 theorem translateExtIndirect_AN (o row) : AN (translateExtIndirect o row) := by
   unfold translateExtIndirect
-  repeat' first | exact translateOffset_AN _ _ _ _ _ | an_step
+  rcases o with ⟨kind, text, value, left, right⟩
+  cases left <;> cases right <;> dsimp only <;>
+    repeat' first | exact translateOffset_AN _ _ _ _ _ | an_step
 
 theorem translatePseudo_AN (o : Operand) (row : Gen.InstrRow) (h : (row.mnemonic == "ORG") = false) :
     AN (translatePseudo o row) := by
